@@ -130,7 +130,8 @@ def register(add, NOTE):
         "numbered current row of its block or one of its junction pulses, never both. A character-level reader is proved to accept every "
         "rendered text and to return exactly its value (and is run inside Coq on the real texts). The ENVIRONMENT block is modelled line by line "
         "(Model/Env.v, stage env against the real block for 0-4 media): every medium but the first prints its height, every medium but the last its "
-        "interface, in order. The printed near-field peak (formula extracted from the source) bounds the instantaneous field. PARTIAL: column agreement and per-table "
+        "interface, in order. The connection columns of the geometry table are modelled per pulse (Model/Conn.v, stage conn): a grounded half prints "
+        "minus the tag of its own wire, inner rows the tag or 0 next to a free end. The printed near-field peak (formula extracted from the source) bounds the instantaneous field. PARTIAL: column agreement and per-table "
         "formats are checked by re-reading every number of real reports. Known finding: V/m table layout.",
         "Rocq proof (decimal rounding / truncation arithmetic over N and R) + character-wise vm_compute correspondence + report re-reading oracle",
         "DESIGN.md §6 C19", note=NOTE + PART)
